@@ -3,6 +3,7 @@
 // paint() before every scenario; the runner repeats this with different fills, compilers and ASLR settings.
 //   det_rec --env NAME --paint 165 --workdir DIR
 #include "OP2Utility.h"
+#include "Sprite/TilesetLoader.h"
 #include "Stream/DynamicMemoryWriter.h"
 #include <nlohmann/json.hpp>
 #include <cstring>
